@@ -1,13 +1,17 @@
 (* C12 -- no input makes a public entry point panic, abort or hang.
    Only statements here.  Models: Model/Checked.v (Rust's failing primitives), Model/RangeArith.v (take-range /
-   LIMIT-OFFSET / id arithmetic), Model/Span.v (error composition), Model/CheckedNest.v; proofs in Proofs/.
+   LIMIT-OFFSET / id arithmetic / negation of integer literals), Model/WidthArith.v (the formatter's width arithmetic
+   and widening loop), Model/ReviewedSites.v (guards of the panic-capable sites added since the last baseline),
+   Model/Span.v (error composition), Model/CheckedNest.v; proofs in Proofs/.
    Gen/GenSites.v (inventory of panic-capable sites, text of the modelled functions) is regenerated from /repo on
    every run; Model/SitesBaseline.v is the recorded baseline.
    PARTIAL: stack depth, wall-clock time and allocation are runtime facts exhibited by the harness
    (vplib/props/c12.py), not by these theorems; panic sites outside the modelled functions are counted, not proved. *)
 From Coq Require Import List ZArith NArith Bool Arith.
-From PV Require Import Lib.ListX Model.Checked Model.RangeArith Model.Span Model.CheckedNest Model.SitesBaseline
-  Proofs.CheckedProofs Proofs.RangeArithProofs Proofs.SpanProofs Proofs.CheckedNestProofs Gen.GenSites.
+From PV Require Import Lib.ListX Model.Checked Model.RangeArith Model.WidthArith Model.ReviewedSites Model.Span
+  Model.CheckedNest Model.SitesBaseline
+  Proofs.CheckedProofs Proofs.RangeArithProofs Proofs.WidthArithProofs Proofs.ReviewedSitesProofs Proofs.SpanProofs
+  Proofs.CheckedNestProofs Gen.GenSites.
 Import ListNotations.
 
 (* ------------------------------------------------------------------ Tie A: inventory and text pins *)
@@ -74,19 +78,111 @@ Proof. exact range_of_ranges_sound_lemma. Qed.
 Print Assumptions c12_range_of_ranges_sound.
 
 (* ------------------------------------------------------------------ IdGenerator (ids of an RQ from JSON) *)
-(* Full statement (FALSE): forall next id, 0 <= id <= usize_max -> id_skip next id <> Panic *)
-Theorem c12_id_skip_total_refuted : in_usize usize_max = true /\ id_skip 0 usize_max = Panic.
-Proof. split; vm_compute; reflexivity. Qed.
-Print Assumptions c12_id_skip_total_refuted.
+(* Full strength since commit 79f4a51 ("the id generator refuses to skip past usize::MAX/2 instead of overflowing";
+   finding C12-N6).  Before, `id_skip 0 usize::MAX = Panic` (the old c12_id_skip_total_refuted) and loading was total
+   only for ids below usize::MAX (c12_id_load_total_partial).  Now, for EVERY usize id: *)
+Theorem c12_id_skip_total : forall next id, 0 <= id <= usize_max -> id_skip next id <> Panic.
+Proof. exact id_skip_total_lemma. Qed.
+Print Assumptions c12_id_skip_total.
 
-Theorem c12_id_load_total_partial : forall ids next, 0 <= next <= usize_max ->
-  Forall (fun i => 0 <= i < usize_max) ids -> exists n, id_load next ids = Ret n /\ 0 <= n <= usize_max.
-Proof. exact id_load_total. Qed.
-Print Assumptions c12_id_load_total_partial.
+(* loading the ids of any query never panics ... *)
+Theorem c12_id_load_total : forall ids next, Forall (fun i => 0 <= i <= usize_max) ids -> id_load next ids <> Panic.
+Proof. exact id_load_total_lemma. Qed.
+Print Assumptions c12_id_load_total.
 
-Theorem c12_id_gen_total_partial : forall next, 0 <= next < usize_max -> exists n, id_gen next = Ret (next, n) /\ n = next + 1.
-Proof. exact id_gen_total. Qed.
-Print Assumptions c12_id_gen_total_partial.
+(* ... the error is raised exactly when some id is above usize::MAX / 2 (it is not spurious) ... *)
+Theorem c12_id_load_fails_iff : forall ids next, Forall (fun i => 0 <= i <= usize_max) ids ->
+  (id_load next ids = Fail <-> Exists (fun i => id_limit < i) ids).
+Proof. exact id_load_fail_iff. Qed.
+Print Assumptions c12_id_load_fails_iff.
+
+(* ... and a generator loaded from any query ends above every id of the query and can hand out usize::MAX / 2 fresh
+   ids without overflowing (`next_id += 1` in gen is still the unchecked operator: this is what bounds it) *)
+Theorem c12_id_load_then_gens : forall ids n k, Forall (fun i => 0 <= i <= usize_max) ids ->
+  id_load 0 ids = Ret n -> Z.of_nat k <= id_limit ->
+  Forall (fun i => i < n) ids /\ id_gens k n = Ret (n + Z.of_nat k).
+Proof.
+  intros ids n k Hi Hl Hk. split.
+  - destruct (id_load_ret ids 0 n Hi Hl) as (_ & H & _). exact H.
+  - exact (id_load_then_gens ids n k Hi Hl Hk).
+Qed.
+Print Assumptions c12_id_load_then_gens.
+
+(* ------------------------------------------------------------------ unary minus on integer literals *)
+(* Full strength since commit 222f71a ("negating i64::MIN in constant folding and window frames reports an error
+   instead of overflowing"; finding C12-N5): constant folding of `std.neg` uses checked_neg and leaves i64::MIN
+   unevaluated; a PRECEDING frame bound is printed from unsigned_abs. *)
+Theorem c12_static_neg_total : forall v, static_neg v <> Panic.
+Proof. exact static_neg_total_lemma. Qed.
+Print Assumptions c12_static_neg_total.
+
+Theorem c12_static_neg_spec : forall v, i64_min <= v <= i64_max ->
+  (v <> i64_min -> static_neg v = Ret (Some (- v)) /\ i64_min <= - v <= i64_max) /\
+  (v = i64_min -> static_neg v = Ret None).
+Proof. exact static_neg_spec. Qed.
+Print Assumptions c12_static_neg_spec.
+
+Theorem c12_frame_bounds_total : forall r, frame_bounds r <> Panic.
+Proof. exact frame_bounds_total_lemma. Qed.
+Print Assumptions c12_frame_bounds_total.
+
+(* the bound that is printed: 0 -> CURRENT ROW, z > 0 -> z FOLLOWING, z < 0 -> -z PRECEDING with 0 < -z <= u64::MAX *)
+Theorem c12_parse_bound_spec : forall z, i64_min <= z <= i64_max ->
+  (z = 0 -> parse_bound (BInt z) = Ret CurrentRow) /\
+  (0 < z -> parse_bound (BInt z) = Ret (Following z)) /\
+  (z < 0 -> parse_bound (BInt z) = Ret (Preceding (- z)) /\ 0 < - z <= usize_max).
+Proof. exact parse_bound_spec. Qed.
+Print Assumptions c12_parse_bound_spec.
+
+(* ------------------------------------------------------------------ the formatter's width arithmetic *)
+(* Commit c8b3817 ("... saturates its width arithmetic"; finding C12-N7: `opt.max_width += opt.max_width / 2` overflowed
+   u16 for a token longer than ~43000 characters).  The widening is a saturating_add now and u16::MAX means
+   "unlimited".  At the unlimited width consume_width cannot refuse ... *)
+Theorem c12_consume_width_unlimited : forall o w, max_width o = u16_max -> consume_width o w = Some o.
+Proof. exact consume_width_unlimited. Qed.
+Print Assumptions c12_consume_width_unlimited.
+
+(* ... at every limited width a token wider than u16::MAX is refused (so the unlimited width is necessary) ... *)
+Theorem c12_consume_width_too_wide : forall o w, max_width o <> u16_max -> u16_max < w -> consume_width o w = None.
+Proof. exact consume_width_too_wide. Qed.
+Print Assumptions c12_consume_width_too_wide.
+
+(* ... and the loop of write_or_expand is at the unlimited width after at most 27 widenings from every width >= 2
+   (18 from WriteOpt::default()'s 50; widths 0 and 1 would never grow, but no WriteOpt is built with them:
+   Gen pins `max_width: 50` and new_width(u16::MAX) as the only constructions) *)
+Theorem c12_widen_reaches_unlimited : forall w, 2 <= w <= u16_max -> iterw 27 w = u16_max.
+Proof. exact widen_reaches_unlimited. Qed.
+Print Assumptions c12_widen_reaches_unlimited.
+
+Theorem c12_widen_from_default : iterw 18 50 = u16_max /\ iterw 17 50 <> u16_max.
+Proof. exact widen_from_default. Qed.
+Print Assumptions c12_widen_from_default.
+
+(* write_or_expand returns after at most 28 calls of `write`, PROVIDED the layout succeeds at the unlimited width
+   (hypothesis Hw: the layout functions of codegen/ast.rs are not modelled here -- that they return Some at
+   u16::MAX is exercised by the probe streams, not proved) and tab_len * indent fits u16 *)
+Theorem c12_write_or_expand_terminates : forall (T : Type) (write : wopt -> option T),
+  (forall o, max_width o = u16_max -> write o <> None) ->
+  forall o, 2 <= max_width o <= u16_max -> 0 <= indent o <= indent_max ->
+  exists s, expand write 28 o = Ret (Some s).
+Proof. exact expand_terminates. Qed.
+Print Assumptions c12_write_or_expand_terminates.
+
+(* Full statement (FALSE, finding C12-N12): forall o, 0 <= indent o <= u16_max -> reset_line o <> Panic.
+   `self.tab.len() as u16 * self.indent` is an unchecked u16 multiplication: indent 32768 (32768 nested modules,
+   a 400 kB source) overflows it. *)
+Theorem c12_reset_line_total_refuted : exists o, 0 <= indent o <= u16_max /\ reset_line o = Panic.
+Proof. exists (WOpt 50 50 32768). split; [split; discriminate | vm_compute; reflexivity]. Qed.
+Print Assumptions c12_reset_line_total_refuted.
+
+Theorem c12_reset_line_total_partial : forall o, 0 <= indent o <= indent_max -> reset_line o <> Panic.
+Proof. exact reset_line_total. Qed.
+Print Assumptions c12_reset_line_total_partial.
+
+(* the classifier of C12-N12 is exact: reset_line panics for every deeper indent *)
+Theorem c12_reset_line_panics_above : forall o, indent_max < indent o -> reset_line o = Panic.
+Proof. exact reset_line_panics. Qed.
+Print Assumptions c12_reset_line_panics_above.
 
 Local Close Scope Z_scope.
 
@@ -106,19 +202,49 @@ Proof. exact convert_lexer_error_off_boundary. Qed.
 Print Assumptions c12_convert_lexer_error_off_boundary.
 
 (* Full statement (FALSE, finding F9): forall tree sp, composed_one tree sp <> Panic.
-   `composed` asserts that the location exists; a span past the character length of its source fails it. *)
+   `composed` asserts that the location exists; a span past the character length of its source fails it.
+   (Model/Span.v also restates the assert of ariadne's Label::new inside compose_display: a reversed span panics
+   too -- no entry point of this check produces one from source text; C13 owns that model.) *)
 Theorem c12_composed_total_refuted : exists s sp, composed_one [(sp_src sp, s)] (Some sp) = Panic.
 Proof. exists [233; 43]%N, (Span 2 3 1). vm_compute. reflexivity. Qed.
 Print Assumptions c12_composed_total_refuted.
 
 Theorem c12_composed_total_partial : forall s sp,
-  sp_start sp <= length s -> sp_end sp <= length s -> composed_one [(sp_src sp, s)] (Some sp) <> Panic.
+  sp_start sp <= sp_end sp -> sp_start sp <= length s -> sp_end sp <= length s ->
+  composed_one [(sp_src sp, s)] (Some sp) <> Panic.
 Proof.
-  intros s sp H1 H2 E. apply composed_one_panics_iff in E. destruct E as [E|E].
+  intros s sp H0 H1 H2 E. apply composed_one_panics_iff in E. destruct E as [E|[E|E]].
+  - apply Nat.lt_nge in E. contradiction.
   - apply Nat.lt_nge in E. contradiction.
   - apply Nat.lt_nge in E. contradiction.
 Qed.
 Print Assumptions c12_composed_total_partial.
+
+(* ------------------------------------------------------------------ sites added since the last baseline *)
+(* Model/SitesBaseline.v was re-recorded on /repo 2a611aa; every row that grew was read, and the added site is
+   restated with its guard in Model/ReviewedSites.v (text pinned by c12_modelled_text_unchanged). *)
+Theorem c12_reviewed_names_relative : forall (A : Type) (found : ident A -> bool) module_path i,
+  resolve_relative found module_path i <> Panic.
+Proof. exact @resolve_relative_total_lemma. Qed.
+Print Assumptions c12_reviewed_names_relative.
+
+Theorem c12_reviewed_only_equals : forall (A : Type) (args : list A), two_args args <> Panic.
+Proof. exact @two_args_total_lemma. Qed.
+Print Assumptions c12_reviewed_only_equals.
+
+Theorem c12_reviewed_rest_behind : forall (A : Type) (pipeline : list A) position,
+  position < length pipeline -> rest_behind pipeline position <> Panic.
+Proof. exact @rest_behind_total_lemma. Qed.
+Print Assumptions c12_reviewed_rest_behind.
+
+Theorem c12_reviewed_table_at : forall (A B : Type) (pipeline : list A) (table : list B) position,
+  length table = length pipeline -> position < length pipeline -> table_at pipeline table position <> Panic.
+Proof. exact @table_at_total_lemma. Qed.
+Print Assumptions c12_reviewed_table_at.
+
+Theorem c12_reviewed_lookup_cid_name : forall (A : Type) (v : A), lookup_cid_name v = Ret (Some v).
+Proof. exact @lookup_cid_name_total_lemma. Qed.
+Print Assumptions c12_reviewed_lookup_cid_name.
 
 (* ------------------------------------------------------------------ nesting is unbounded in the input size *)
 Theorem c12_unbounded_depth : forall d, length (nest d) = 2 * d + 1 /\ bracket_depth (nest d) = d.
@@ -135,3 +261,23 @@ Example c12_ex_not_literal : take_sql [ERange (Some (BInt 1)) (Some BOther)] = F
 Proof. vm_compute. reflexivity. Qed.
 Example c12_ex_bounded : bounded_i 10 (IRange (Some 3) (Some 7)).
 Proof. split; cbn; split; discriminate. Qed.
+(* the repaired functions on the inputs that used to panic (findings C12-N6, C12-N5), and what the unchecked operators
+   would still do there *)
+Example c12_ex_id_max : id_skip 0 usize_max = Fail /\ id_load 0 [0; usize_max; 1] = Fail /\ addus usize_max 1 = Panic.
+Proof. repeat split; vm_compute; reflexivity. Qed.
+Example c12_ex_id_half : id_skip 0 id_limit = Ret (id_limit + 1) /\ id_skip 0 (id_limit + 1) = Fail.
+Proof. split; vm_compute; reflexivity. Qed.
+Example c12_ex_neg_min : static_neg i64_min = Ret None /\ static_neg 5 = Ret (Some (-5)) /\ neg64 i64_min = Panic.
+Proof. repeat split; vm_compute; reflexivity. Qed.
+Example c12_ex_frame_min : frame_bounds (ERange (Some (BInt i64_min)) (Some (BInt 2))) =
+  Ret (Some (Preceding 9223372036854775808), Some (Following 2)).
+Proof. vm_compute. reflexivity. Qed.
+Example c12_ex_frame_not_literal : frame_bounds (ERange (Some BOther) None) = Fail.
+Proof. vm_compute. reflexivity. Qed.
+Local Close Scope Z_scope.
+(* the hypotheses of the reviewed-site theorems are what enumerate() provides *)
+Example c12_ex_rest_behind : rest_behind [1; 2; 3] 2 = Ret [] /\ rest_behind [1; 2; 3] 3 = Panic.
+Proof. split; vm_compute; reflexivity. Qed.
+Example c12_ex_names_relative :
+  resolve_relative (fun i => Nat.eqb (length (path i)) 1) [7; 8] (Ident [] 9) = Ret (Some (Ident [8] 9)).
+Proof. vm_compute. reflexivity. Qed.
